@@ -150,10 +150,10 @@ def run_job(job, rec):
                 continue
             rec.count("mean_derivative_checks")
             gscale = max(np.abs(dmu).max(), 1e-300)
-            tol = 2e-6 * gscale + noise
-            rec.check(bool(np.all(np.abs(gm[k] - dmu) <= tol)), "gradient-mean",
+            tol = 2e-6 * gscale + noise + 2 * dmu.spread   # (not stricter than the numerical reference is consistent with itself)
+            rec.check(bool(np.all(np.abs(gm[k] - np.asarray(dmu)) <= tol)), "gradient-mean",
                       lambda: f"{mean_name} mean, d={d}: gradient() mean {gm[k]} != numerical derivative of the predictive mean {dmu}", rec.context)
-            rec.check(bool(np.all(np.abs(sm[k] - dmu) <= tol)), "spatial-derivative-mean",
+            rec.check(bool(np.all(np.abs(sm[k] - np.asarray(dmu)) <= tol)), "spatial-derivative-mean",
                       lambda: f"{mean_name} mean, d={d}: spatial_derivatives mean-gradient {sm[k]} != numerical {dmu}", rec.context)
             var0 = float(s0[0]) ** 2
             if var0 > 1e-6 * a2:
@@ -161,9 +161,9 @@ def run_job(job, rec):
                 if not stable:
                     rec.count("skipped_unstable_reference")
                     continue
-                vtol = 2e-6 * max(np.abs(dv).max(), 1e-300) + 100 * eps * cond * a2 / h
+                vtol = 2e-6 * max(np.abs(dv).max(), 1e-300) + 100 * eps * cond * a2 / h + 2 * dv.spread
                 rec.count("variance_derivative_checks")
-                rec.check(bool(np.all(np.abs(sv[k] - dv) <= vtol)), "spatial-derivative-variance",
+                rec.check(bool(np.all(np.abs(sv[k] - np.asarray(dv)) <= vtol)), "spatial-derivative-variance",
                           lambda: f"d={d}: variance gradient {sv[k]} != numerical derivative of the predictive variance {dv}", rec.context)
             # closed-form gradient covariance for the squared-exponential kernel
             kq = R.kernel(spec, qk[None, :], x, tc, n)[0]
